@@ -514,6 +514,8 @@ func (x *SExec) apply(i int, op SOp) *Fail {
 		return x.doAddResize(i, op)
 	case "addwrite":
 		return x.doAddWrite(i, op)
+	case "resizerace":
+		return x.doResizeRace(i, op)
 	case "ctldelsnap":
 		return x.doCtlDeleteSnapshot(i, op)
 	case "ctlrevert":
@@ -2485,6 +2487,116 @@ func (x *SExec) doAddWrite(i int, op SOp) *Fail {
 		if !reached[j] {
 			return sfail("write|acknowledged-but-missing-on-in-service-replica", fmt.Sprintf("the write was acknowledged while n%d was being added; n%d is in service (%s) and never received it (applied by %v)", n, j, x.Mode[j], keys(reached)), "C02", "C07")
 		}
+	}
+	return nil
+}
+
+// doResizeRace: a second resize request arrives while the first (a grow) is
+// being carried out (one replica is parked in its resize request, the controller
+// lock is held). The second takes effect after the first: if it is not a grow
+// any more by then it is refused and changes nothing - no replica sees it, none
+// is marked failed. op.N = blocks the first adds, op.Seed selects the second size.
+func (x *SExec) doResizeRace(i int, op SOp) *Fail {
+	st := x.St
+	if x.listed() == 0 || x.nRW() == 0 {
+		return nil
+	}
+	for j, m := range x.Mode {
+		if m == types.ERR || (m == "" && st.Mode(j) != "") {
+			return nil
+		}
+	}
+	holder := -1
+	for j, m := range x.Mode {
+		if m == types.RW {
+			holder = j
+		}
+	}
+	old := x.Live.size() / Blk
+	first := old + op.N
+	// the second request: between the old and the first's size (a shrink once the first is done),
+	// equal to it, or above it (still a grow)
+	var second int64
+	switch op.Seed % 3 {
+	case 0:
+		second = old + 1 + int64(op.Seed/3)%op.N
+		if second >= first {
+			second = first - 1
+		}
+		if second <= old {
+			return nil
+		}
+	case 1:
+		second = first
+	default:
+		second = first + 1 + int64(op.Seed/3)%4
+	}
+	before := make([]int, len(st.Nodes))
+	for j, nd := range st.Nodes {
+		before[j] = nd.RestCount("?resize")
+	}
+	modesBefore := append([]types.Mode{}, x.Mode...)
+	hold := st.Nodes[holder].HoldRest("resize", 250*time.Millisecond)
+	r1 := make(chan error, 1)
+	go func() { r1 <- st.C.Resize("vol", strconv.FormatInt(first*Blk, 10)) }()
+	parked := false
+	select {
+	case <-hold.Arrived:
+		parked = true
+	case e := <-r1:
+		r1 <- e
+	case <-time.After(3 * time.Second):
+	}
+	err2 := st.C.Resize("vol", strconv.FormatInt(second*Blk, 10))
+	var err1 error
+	select {
+	case err1 = <-r1:
+	case <-time.After(60 * time.Second):
+		return sfail("resizerace|hangs", "Controller.Resize did not return within 60 s", "C16", "C14")
+	}
+	st.Nodes[holder].ClearFaults()
+	x.tracef("resizerace: %d -> %d blocks (parked=%v) -> %v; second request %d blocks -> %v", old, first, parked, err1, second, err2)
+	if err1 != nil {
+		return sfail("ctlresize|grow|refused", fmt.Sprintf("Controller.Resize to %d blocks refused: %v", first, err1), "C16")
+	}
+	x.Labels["ctlresize:grow"]++
+	if parked {
+		x.Labels["resizerace:second-request-during-first"]++
+	}
+	final := first
+	if second > first {
+		if err2 != nil {
+			return sfail("ctlresize|grow|refused", fmt.Sprintf("the second resize (to %d blocks, above the first's %d) was refused: %v", second, first, err2), "C16")
+		}
+		final = second
+	} else {
+		if err2 == nil {
+			return sfail("ctlresize|not-a-grow|accepted", fmt.Sprintf("a resize to %d blocks was accepted although the volume had just been grown to %d", second, first), "C16")
+		}
+		// refused: nothing may have changed - one resize request per replica (the first), nobody marked failed
+		for j, nd := range st.Nodes {
+			if modesBefore[j] != types.RW && modesBefore[j] != types.WO {
+				continue
+			}
+			if got := nd.RestCount("?resize") - before[j]; got > 1 {
+				return sfail("ctlresize|refused-but-reached-replica", fmt.Sprintf("the refused resize to %d blocks was sent to n%d (it received %d resize requests)", second, j, got), "C16")
+			}
+			if m := st.Mode(j); m != modesBefore[j] {
+				return sfail("ctlresize|refused-but-replica-marked", fmt.Sprintf("after a refused resize n%d is listed %q (was %s)", j, m, modesBefore[j]), "C16", "C05")
+			}
+		}
+	}
+	x.Live.Grow(final * Blk)
+	for j, nd := range st.Nodes {
+		if x.Mode[j] != types.RW && x.Mode[j] != types.WO {
+			continue
+		}
+		if r := nd.S.Replica(); r == nil || r.Info().Size != final*Blk {
+			return sfail("ctlresize|replica-size", fmt.Sprintf("n%d does not report the size %d after two overlapping resize requests", j, final*Blk), "C16")
+		}
+	}
+	if got := st.C.VerifState().Size; got != final*Blk {
+		return sfail("ctlresize|controller-size", fmt.Sprintf("controller size %d, expected %d", got, final*Blk), "C16")
 	}
 	return nil
 }
